@@ -138,6 +138,15 @@ def gen_custom(rng, nprng, nmax):
     zhel = zcmb + nprng.normal(0, 2e-3, n)
     zhel = np.maximum(zhel, 1e-3)
     cov, ckind = gen_cov(rng, nprng, n)
+    cov_int = rng.random() < 0.15
+    if cov_int:
+        # a covariance of whole numbers handed over INTEGER-typed (np.eye(n, dtype=int), a list of ints): the same numbers
+        if rng.random() < 0.5:
+            cov = np.diag(nprng.randint(1, 5, n).astype(float))
+        else:
+            b = nprng.randint(-1, 2, (n, n)).astype(float)
+            cov = b @ b.T + np.eye(n)
+        ckind = "int_typed"
     cos = gen_cosmo(rng)
     za = rng.choice([0.1, 0.1, rng.uniform(0.01, 2.0)])
     za2 = rng.uniform(0.01, 2.5)
@@ -155,13 +164,13 @@ def gen_custom(rng, nprng, nmax):
         "noscatter": rng.random() < 0.15, "cosmo": cos.to_json(), "za": za, "za2": za2,
         "k": math.exp(rng.uniform(math.log(1e-2), math.log(1e2))),
         "m": (0.0 if m_true == 0.0 else m_true + rng.gauss(0, 0.3)), "m_free": rng.random() < 0.4, "sigma": sig(), "calls": calls,
-        "ckind": ckind,
+        "ckind": ckind, "cov_int": cov_int,
     }
 
 
 def build_custom(c):
     from hierarc.Likelihood.SneLikelihood.sne_likelihood import SneLikelihood
-    arrs = {"mag_mean": np.array(c["mag"], dtype=float), "cov_mag": np.array(c["cov"], dtype=float),
+    arrs = {"mag_mean": np.array(c["mag"], dtype=float), "cov_mag": np.array(c["cov"], dtype=(int if c.get("cov_int") else float)),
             "zhel": np.array(c["zhel"], dtype=float), "zcmb": np.array(c["zcmb"], dtype=float)}
     like = SneLikelihood(sample_name="CUSTOM", no_intrinsic_scatter=bool(c["noscatter"]), **arrs)
     return like, arrs
@@ -237,7 +246,7 @@ def oracle_custom(c):
         seq_vals.append(float(inner.log_likelihood_lum_dist(np.array(call["lum"], dtype=float), call["m"], call["sigma"])))
     for call, v0 in zip(c["calls"], seq_vals):     # each call again, on the used instance and on a fresh one
         v1 = float(inner.log_likelihood_lum_dist(np.array(call["lum"], dtype=float), call["m"], call["sigma"]))
-        fresh = CustomSneLikelihood(np.array(c["mag"], dtype=float), np.array(c["cov"], dtype=float),
+        fresh = CustomSneLikelihood(np.array(c["mag"], dtype=float), np.array(c["cov"], dtype=(int if c.get("cov_int") else float)),
                                     np.array(c["zhel"], dtype=float), np.array(c["zcmb"], dtype=float),
                                     no_intrinsic_scatter=bool(c["noscatter"]))
         v2 = float(fresh.log_likelihood_lum_dist(np.array(call["lum"], dtype=float), call["m"], call["sigma"]))
